@@ -76,6 +76,10 @@ class ShapelyPolygon(Domain):
                 points = torch.cat((points, new_points), dim=0)
             if len(points) == n:
                 break
+        if len(points) > n:
+            # triangles that are only partly inside the polygon keep a random
+            # number of their points, remove the surplus at random
+            points = points[torch.randperm(len(points), device=device)[:n]]
         # if some points are missing, distribute them randomly (proportional to
         # the area) over the triangles that lay inside the polygon. Always using
         # the same triangle would not be uniform for small n.
